@@ -23,10 +23,15 @@ class C07Episode(Episode):
             if sc['kind'] == 'unix':
                 s = CircusSocket(name=name, path=os.path.join(
                     d, 's%d.sock' % i))
+            elif sc.get('reuseport'):
+                # bound per worker by design: excepted from the statement,
+                # but its presence in the set must not affect the others
+                s = CircusSocket(name=name, host='127.0.0.1', port=0,
+                                 so_reuseport=True)
             else:
                 s = CircusSocket(name=name, host='127.0.0.1', port=0)
             rec = {'sock': s, 'bind': 0, 'listen': 0, 'close': 0,
-                   'kind': sc['kind']}
+                   'kind': sc['kind'], 'reuseport': bool(sc.get('reuseport'))}
             self.socks[name.lower()] = rec
             for meth in ('bind', 'listen', 'close'):
                 orig = getattr(s, meth)
@@ -125,7 +130,7 @@ class C07Episode(Episode):
         listed = dict((x['name'].lower(), x) for x in ls.get('sockets', [])) \
             if isinstance(ls, dict) else {}
         for name, rec in self.socks.items():
-            if 'ino' not in rec:
+            if 'ino' not in rec or rec.get('reuseport'):
                 continue
             self.probes['socket_liveness_checked'] += 1
             if rec['bind'] != 1 or rec['listen'] != 1:
@@ -215,6 +220,12 @@ class C07(Prop):
         names = rng.sample(['web', 'Api', 'UX', 'db_1'], ns)
         cfg['sockets'] = [{'name': n, 'kind': rng.choice(['inet', 'unix'])}
                           for n in names]
+        if rng.random() < 0.3:
+            # an so_reuseport socket somewhere in the set (no watcher of the
+            # case refers to it)
+            cfg['sockets'].insert(rng.randrange(len(cfg['sockets']) + 1),
+                                  {'name': rng.choice(['aaa_rp', 'rp', 'zz']),
+                                   'kind': 'inet', 'reuseport': True})
         for wc in cfg['watchers']:
             use = rng.random() < 0.7
             if use:
